@@ -3,11 +3,15 @@
     M1  [finished_file_metadata_is_faithful] (check_C18 on every finished file); proved from the
         stronger [finished_file_metadata_general], which needs none of the language / creation-time /
         duration side conditions.
-    M2  the statement as first proposed ([header_clauses_claim]) is FALSE: two concrete
-        counterexamples ([header_clauses_claim_refuted_opus0], [header_clauses_claim_refuted_big_sps]).
+    M2  the statement as first proposed ([header_clauses_claim]) is FALSE: concrete counterexample
+        [header_clauses_claim_refuted_opus0] (the second one, an oversized SPS, no longer finishes since
+        the fix "finish returns an error for parameter sets that do not fit avcC/hvcC's 16-bit length
+        fields": [former_big_sps_witness_is_rejected]).
         The corrected statements are [finished_file_header_clauses_exact] (the exact list of failing
-        clauses), [finished_file_header_clauses_variant] (side condition on the writer state) and
-        [finished_file_header_clauses_variant_inputs] (side condition on the submitted frames). *)
+        clauses), [finished_file_header_clauses_variant] (side condition on the writer state),
+        [finished_file_header_clauses_variant_inputs] (side condition on the submitted frames), and,
+        since that fix, [finished_file_header_clauses_exact_unconditional] /
+        [finished_file_header_clauses_unconditional] (no side condition on the parameter sets). *)
 From Coq Require Import Lia ZifyN ZifyNat ZifyBool.
 From Muxide Require Import Model.Base Model.Annexb Model.Adts Model.Codec Model.Boxes Model.F64 Model.Writer Model.Api
   Spec.Bmff Spec.Reader Spec.Layout Spec.Checks Spec.Headers Spec.HeaderChecks.
@@ -75,6 +79,7 @@ Lemma finalize_ok_dims w v md f w' :
 Proof.
   unfold finalize. destruct (w_finalized w); [discriminate|].
   destruct ((U16MAX <? vt_width v) || (U16MAX <? vt_height v)) eqn:E; [discriminate|].
+  destruct (param_sets_too_long (w_vconfig w)) eqn:Gps; [discriminate|].
   intros _. unfold U16MAX in E. lia.
 Qed.
 
@@ -809,7 +814,7 @@ Proof.
 Qed.
 Print Assumptions finished_file_header_clauses_variant_inputs.
 
-(** ** M2 as originally stated is false: two concrete counterexamples *)
+(** ** M2 as originally stated is false: a concrete counterexample (there used to be two; see below) *)
 Definition header_clauses_claim : Prop := forall b m0 ops m rs s cl,
   build b [] = inl m0 -> run m0 ops = (m, rs) -> In (RStats s) rs ->
   Forall op_payload_ok ops -> len (sink_of m) < 4294967296 ->
@@ -834,7 +839,8 @@ Definition cex_failed (b : builder) (ops : list op) : list N * list rclass :=
 (* (1) Opus declared with 0 channels, no samples, finish: clause 11 fails although 2 < channels is false *)
 Eval vm_compute in cex_failed (cex_builder (Some (Opus, 48000, 0))) [FIN].
 
-(* (2) H.264 whose SPS is 65537 bytes long: clause 10 fails although the codec is not VP9 *)
+(* (2) H.264 whose SPS is 65537 bytes long: clause 10 USED TO fail although the codec is not VP9;
+   the finish is now rejected *)
 Definition cex_big_frame : bytes :=
   [0;0;0;1;103] ++ repeat 2 (N.to_nat 65536) ++ [0;0;0;1;104;1] ++ [0;0;0;1;101;1].
 Eval vm_compute in cex_failed (cex_builder None) [WV 0 cex_big_frame true; FIN].
@@ -858,21 +864,52 @@ Proof.
 Qed.
 Print Assumptions header_clauses_claim_refuted_opus0.
 
-Theorem header_clauses_claim_refuted_big_sps : ~ header_clauses_claim.
+(* former second refutation [header_clauses_claim_refuted_big_sps]: since the fix "finish returns an error for
+   parameter sets that do not fit avcC/hvcC's 16-bit length fields" its witness history no longer finishes
+   successfully: the frame is accepted, the finish fails with InvalidInput and nothing is written *)
+Theorem former_big_sps_witness_is_rejected :
+  let r := run (cex_m0 (cex_builder None)) [WV 0 cex_big_frame true; FIN] in
+  snd r = [ROk; RErr (MIo IoInvalidInput)] /\ sink_of (fst r) = [].
+Proof. vm_compute. split; reflexivity. Qed.
+Print Assumptions former_big_sps_witness_is_rejected.
+
+(** ** M2 without side condition: a successful finish implies that the stored parameter sets fit *)
+Lemma not_too_long_fits w :
+  param_sets_too_long (w_vconfig w) = false -> param_sets_fit (effective_config w).
 Proof.
-  intros H.
-  set (b := cex_builder None). set (ops := [WV 0 cex_big_frame true; FIN]).
-  set (r := run (cex_m0 b) ops).
-  assert (Hrs : exists s, snd r = [ROk; RStats s]) by (vm_compute; eexists; reflexivity).
-  destruct Hrs as [s Hrs].
-  specialize (H b (cex_m0 b) ops (fst r) (snd r) s 10 eq_refl (surjective_pairing r)).
-  assert (HIn : In (RStats s) (snd r)) by (rewrite Hrs; right; left; reflexivity).
-  assert (Hok : Forall op_payload_ok ops).
-  { repeat constructor; vm_compute; reflexivity. }
-  assert (Hlen : len (sink_of (fst r)) < 4294967296) by (vm_compute; reflexivity).
-  assert (Hf : failed_C19_mux b ops (map class_of (snd r)) (sink_of (fst r)) = [3; 4; 7; 10])
-    by (vm_compute; reflexivity).
-  specialize (H HIn Hok Hlen). rewrite Hf in H. specialize (H ltac:(right; right; right; left; reflexivity)).
-  destruct H as [H|[H|[H|[[_ H]|[H _]]]]]; discriminate H.
+  unfold effective_config. destruct (w_vconfig w) as [[a|h|a|p]|]; cbn [param_sets_too_long param_sets_fit];
+    unfold U16MAX; intros H.
+  - lia.
+  - lia.
+  - exact I.
+  - exact I.
+  - cbn. split; reflexivity.
 Qed.
-Print Assumptions header_clauses_claim_refuted_big_sps.
+
+Theorem finished_file_header_clauses_exact_unconditional : forall b m0 ops m rs s,
+  build b [] = inl m0 -> run m0 ops = (m, rs) -> In (RStats s) rs ->
+  Forall op_payload_ok ops -> len (sink_of m) < 4294967296 ->
+  failed_C19_mux b ops (map class_of rs) (sink_of m) =
+  [3; 4; 7] ++
+  clause 10 (match effective_config (m_writer m) with CfgVp9 _ => false | _ => true end) ++
+  match cfg_audio b with Some a => clause 11 (dops_ok a) | None => [] end.
+Proof.
+  intros b m0 ops m rs s Hb HR HIn Hok Hlen.
+  apply (finished_file_header_clauses_exact b m0 ops m rs s Hb HR HIn Hok Hlen).
+  apply not_too_long_fits. exact (finished_params_fit b m0 ops m rs s Hb HR HIn).
+Qed.
+Print Assumptions finished_file_header_clauses_exact_unconditional.
+
+Theorem finished_file_header_clauses_unconditional : forall b m0 ops m rs s cl,
+  build b [] = inl m0 -> run m0 ops = (m, rs) -> In (RStats s) rs ->
+  Forall op_payload_ok ops -> len (sink_of m) < 4294967296 ->
+  In cl (failed_C19_mux b ops (map class_of rs) (sink_of m)) ->
+  cl = 3 \/ cl = 4 \/ cl = 7 \/
+  (cl = 10 /\ cfg_codec b = Vp9) \/
+  (cl = 11 /\ exists a, cfg_audio b = Some a /\ at_codec a = Opus /\ (at_channels a = 0 \/ 2 < at_channels a)).
+Proof.
+  intros b m0 ops m rs s cl Hb HR HIn Hok Hlen.
+  apply (finished_file_header_clauses_variant b m0 ops m rs s cl Hb HR HIn Hok Hlen).
+  apply not_too_long_fits. exact (finished_params_fit b m0 ops m rs s Hb HR HIn).
+Qed.
+Print Assumptions finished_file_header_clauses_unconditional.
